@@ -311,7 +311,7 @@ static Tok gen_range(bool with_a, char want = 0) {
 }
 static Tok gen_array();
 static Tok gen_repeat(bool allow_array, const char *eltypes = "iihfdcsSKmbr") {
-  int n = vf::pick<int>(1, 6);
+  int n = vf::chance(75) ? vf::pick<int>(1, 6) : vf::oneof<int>({10, 12, 20, 30, 100, 101, 9, 19});
   Tok el = (allow_array && vf::chance(20)) ? gen_array() : gen_plain(eltypes);
   Tok t;
   t.parts = el.parts;
@@ -341,7 +341,7 @@ static Tok gen_array() {
       e = gen_range(true, et[0]);
       kind = "array.with_range";
     } else if (k == 1) {
-      if (et == "K") { e = vf::coin() ? one("true", mk('T'), "T") : one("false", mk('F'), "F"); int rn = vf::pick<int>(1, 6); e.parts[0] = std::to_string(rn) + "x" + e.parts[0]; V v0 = e.vals[0]; e.vals.assign((size_t)rn, v0); e.range = true; e.kind = "repeat." + e.kind; }
+      if (et == "K") { e = vf::coin() ? one("true", mk('T'), "T") : one("false", mk('F'), "F"); int rn = vf::chance(75) ? vf::pick<int>(1, 6) : vf::oneof<int>({10, 20, 100}); e.parts[0] = std::to_string(rn) + "x" + e.parts[0]; V v0 = e.vals[0]; e.vals.assign((size_t)rn, v0); e.range = true; e.kind = "repeat." + e.kind; }
       else e = gen_repeat(false, et.c_str());
       kind = "array.with_repeat";
     } else {
